@@ -336,6 +336,9 @@ def rule_type_override(ctx, _flow, harvests) -> RuleResult:
                 return True
             if isinstance(x, ast.Name) and x.id in fl.loops and any(from_kwargs(it, depth + 1) for it in fl.iterated_over(x.id)):
                 return True
+            # a local built from the overrides (the parameter of an expanded helper, a filtered copy of **kwargs)
+            if isinstance(x, ast.Name) and x.id in fl.defs and any(from_kwargs(d, depth + 1) for d in fl.defs[x.id]):
+                return True
         return False
 
     def excludes_entity_keys(e, depth=0):
